@@ -542,7 +542,7 @@ impl Prop for CliOptions {
                 opts.p = Some(1);
                 // the clip decision does not depend on -r: sometimes a threshold that is met early
                 opts.r = if r.coin(0.3) { Some(((d * *r.pick(&[0.05, 0.3, 1.0, 10.0])) * 1000.0).round() / 1000.0 + 0.001) } else { None };
-                opts.c = Some(*r.pick(&[0.0, 1e-3, 0.05, 0.1, 0.3, 0.45, 0.6, 1.0]));
+                opts.c = Some(*r.pick(&[0.0, 1e-3, 0.05, 0.1, 0.3, 0.45, 0.6, 1.0, 0.125, 0.25, 0.5, 0.75]));
                 if opts.t.is_none() {
                     opts.t = Some(*r.pick(&[1u64, 2, 3, 5, 10, 30]));
                 }
